@@ -195,11 +195,6 @@ theorem Inv.dispatchCore {s : State} (h : Inv s) (i : Val) : Inv (dispatchCore s
     show (s.tasks ++ _)[k]? = some t
     rw [List.getElem?_append_left (List.getElem?_eq_some_iff.mp ht).1]; exact ht
 
-theorem Inv.dispatch {s : State} (h : Inv s) (i : Val) : Inv (dispatchStep s i) := by
-  unfold dispatchStep; split
-  · exact h
-  · exact h.dispatchCore i
-
 theorem Inv.abort {s : State} (h : Inv s) (k : Nat) : Inv (abortStep s k) := by
   apply h.modifyTasks
   intro t _
@@ -240,25 +235,6 @@ theorem Inv.ready {s : State} (h : Inv s) (k : Nat) (v : Val) : Inv (readyStep s
         simp [this] at hd
       · exact ok
 
-theorem Inv.clearCore {s : State} (h : Inv s) : Inv (clearCore s) := by
-  constructor
-  · exact h.inFlight
-  · exact h.version
-  · simp [Action.clearCore, countP_append, countP, Write.isCompleted, h.logCount]
-  · simp [Action.clearCore, lastWrite_append]
-  · exact h.input
-  · exact h.tasksOK
-  · intro k v hm
-    simp only [Action.clearCore, List.mem_append, List.mem_singleton] at hm
-    rcases hm with hm | hm
-    · exact h.logSound k v hm
-    · cases hm
-
-theorem Inv.clear {s : State} (h : Inv s) : Inv (clearStep s) := by
-  unfold clearStep; split
-  · exact h
-  · exact h.clearCore
-
 /-- a step that touches none of the fields the invariant reads -/
 theorem Inv.congr {s s' : State} (h : Inv s)
     (h1 : s'.inFlight = s.inFlight) (h2 : s'.input = s.input) (h3 : s'.value = s.value)
@@ -294,6 +270,144 @@ theorem unfinished_of_live {d : Nat} {t : Task} (ok : TaskOK d t) (hd : t.done =
     t.outcome = .running := by
   have := ok.doneIff
   simpa [hd, Task.unfinished] using this
+
+
+/-! ### re-entrant dispatch from a synchronous observer -/
+
+theorem Inv.parkNew {s : State} (h : Inv s) (i : Val) :
+    Inv (parkTask (Action.dispatchCore s i) s.tasks.length) := by
+  have h' := h.dispatchCore i
+  unfold parkTask
+  apply h'.modifyTasks
+  intro t ht
+  have ht' : (s.tasks ++ [({ curVersion := s.dispatched } : Task)])[s.tasks.length]? = some t := ht
+  simp at ht'
+  subst ht'
+  refine ⟨rfl, fun ok => ⟨ok.latest, ok.doneIff, ?_, ok.futOf⟩⟩
+  intro _ hor
+  simp at hor
+
+theorem Inv.hookDispatch {s : State} (h : Inv s) (i : Val) : Inv (Action.hookDispatch s i) := by
+  unfold Action.hookDispatch
+  split
+  · exact h
+  · split
+    · exact h.parkNew i
+    · exact h.dispatchCore i
+
+theorem Inv.fireVersion {s : State} (h : Inv s) : Inv (Action.fireVersion s) := by
+  unfold Action.fireVersion
+  split
+  · exact h
+  · split
+    · exact h
+    · refine Inv.hookDispatch ?_ _
+      exact h.congr rfl rfl rfl rfl rfl rfl rfl rfl rfl
+
+theorem Inv.fireValue {s : State} (h : Inv s) : Inv (Action.fireValue s) := by
+  unfold Action.fireValue
+  split
+  · exact h
+  · split
+    · exact h
+    · refine Inv.hookDispatch ?_ _
+      exact h.congr rfl rfl rfl rfl rfl rfl rfl rfl rfl
+
+/-- the state with its `input` put into the form the invariant expects -/
+def normInput (s : State) : State :=
+  { s with input := if 0 < s.inFlight then s.lastInput else none }
+
+/-- the invariant in the middle of a task's poll, before the tail `if in_flight == 0 { input = None }` -/
+structure PreInv (s : State) : Prop where
+  inv : Inv (normInput s)
+  inputW : 0 < s.inFlight → s.input = s.lastInput
+
+theorem PreInv.mk' {s : State}
+    (h1 : s.inFlight = countP Task.unfinished s.tasks)
+    (h2 : s.version = countP Task.completed s.tasks)
+    (h3 : countP Write.isCompleted s.log = s.version)
+    (h4 : s.value = lastWrite s.initVal s.log)
+    (h5 : 0 < s.inFlight → s.input = s.lastInput)
+    (h6 : ∀ t ∈ s.tasks, TaskOK s.dispatched t)
+    (h7 : ∀ k v, Write.completed k v ∈ s.log → ∃ t, s.tasks[k]? = some t ∧ t.outcome = .completed v) :
+    PreInv s :=
+  ⟨⟨h1, h2, h3, h4, rfl, h6, h7⟩, h5⟩
+
+theorem PreInv.clearInput {s : State} (h : PreInv s) : Inv (clearInputIfIdle s) :=
+  Inv.clearInput h.inv.inFlight h.inv.version h.inv.logCount h.inv.value h.inputW h.inv.tasksOK h.inv.logSound
+
+theorem normInput_hookDispatch (s : State) (i : Val) :
+    normInput (hookDispatch s i) = hookDispatch (normInput s) i := by
+  unfold Action.hookDispatch
+  show normInput (if s.suppress = true then s else if s.eager = true then _ else _) =
+    (if s.suppress = true then normInput s else if s.eager = true then _ else _)
+  split
+  · rfl
+  · split <;> simp [normInput, Action.dispatchCore, parkTask]
+
+theorem PreInv.hookDispatch {s : State} (h : PreInv s) (i : Val) : PreInv (Action.hookDispatch s i) := by
+  refine ⟨by rw [normInput_hookDispatch]; exact h.inv.hookDispatch i, ?_⟩
+  unfold Action.hookDispatch
+  split
+  · exact h.inputW
+  · split <;> (intro _; rfl)
+
+theorem PreInv.congrHooks {s s' : State} (h : PreInv s)
+    (h1 : s'.inFlight = s.inFlight) (h2 : s'.input = s.input) (h3 : s'.value = s.value)
+    (h4 : s'.version = s.version) (h5 : s'.dispatched = s.dispatched) (h6 : s'.tasks = s.tasks)
+    (h7 : s'.initVal = s.initVal) (h8 : s'.lastInput = s.lastInput) (h9 : s'.log = s.log) : PreInv s' := by
+  refine ⟨h.inv.congr h1 ?_ h3 h4 h5 h6 h7 h8 h9, ?_⟩
+  · show (if 0 < s'.inFlight then s'.lastInput else none) = (if 0 < s.inFlight then s.lastInput else none)
+    rw [h1, h8]
+  · rw [h1, h2, h8]; exact h.inputW
+
+theorem PreInv.fireVersion {s : State} (h : PreInv s) : PreInv (Action.fireVersion s) := by
+  unfold Action.fireVersion
+  split
+  · exact h
+  · split
+    · exact h
+    · refine PreInv.hookDispatch ?_ _
+      exact h.congrHooks rfl rfl rfl rfl rfl rfl rfl rfl rfl
+
+theorem PreInv.fireValue {s : State} (h : PreInv s) : PreInv (Action.fireValue s) := by
+  unfold Action.fireValue
+  split
+  · exact h
+  · split
+    · exact h
+    · refine PreInv.hookDispatch ?_ _
+      exact h.congrHooks rfl rfl rfl rfl rfl rfl rfl rfl rfl
+
+/-- the observer of `version` reads neither `value` nor the ghost log: the two writes of the
+completion arm commute with it -/
+theorem fireVersion_comm (s : State) (a : Option Val) (l : List Write) :
+    fireVersion { s with value := a, log := l } = { fireVersion s with value := a, log := l } := by
+  cases hd : s.disposed <;> cases hb : s.hookVersion.budget <;> cases hs : s.suppress <;> cases he : s.eager <;>
+    simp [Action.fireVersion, Action.hookDispatch, hd, hb, hs, he, Action.dispatchCore, parkTask]
+
+theorem Inv.clearWrite {s : State} (h : Inv s) : Inv { s with value := none, log := s.log ++ [.cleared] } := by
+  constructor
+  · exact h.inFlight
+  · exact h.version
+  · simp [countP_append, countP, Write.isCompleted, h.logCount]
+  · simp [lastWrite_append]
+  · exact h.input
+  · exact h.tasksOK
+  · intro k v hm
+    simp only [List.mem_append, List.mem_singleton] at hm
+    rcases hm with hm | hm
+    · exact h.logSound k v hm
+    · cases hm
+
+
+theorem Inv.clearCore {s : State} (h : Inv s) : Inv (clearCore s) :=
+  h.clearWrite.fireValue
+
+theorem Inv.clear {s : State} (h : Inv s) : Inv (clearStep s) := by
+  unfold clearStep; split
+  · exact h
+  · exact h.clearCore
 
 theorem Inv.abortArm {s : State} (h : Inv s) (id : Nat) (t : Task)
     (ht : s.tasks[id]? = some t) (hd : t.done = false) : Inv (abortArm s id) := by
@@ -351,43 +465,61 @@ theorem Inv.futArm {s : State} (h : Inv s) (id : Nat) (t : Task) (v : Val)
   simp at c1 c2
   have hin := h.inFlight
   have hl : decide (s.dispatched ≤ t.curVersion) = true := by simpa using ok.latest
+  have hp : PreInv ({ s with
+      inFlight := s.inFlight - 1
+      version := s.version + 1
+      value := some v
+      log := s.log ++ [Write.completed id v]
+      tasks := modifyAt g s.tasks id } : State) := by
+    apply PreInv.mk'
+    · show s.inFlight - 1 = countP Task.unfinished (modifyAt g s.tasks id)
+      omega
+    · show s.version + 1 = countP Task.completed (modifyAt g s.tasks id)
+      rw [h.version]; omega
+    · show countP Write.isCompleted (s.log ++ [Write.completed id v]) = s.version + 1
+      simp [countP_append, countP, Write.isCompleted, h.logCount]
+    · show some v = lastWrite s.initVal (s.log ++ [Write.completed id v])
+      simp [lastWrite_append]
+    · intro hpos
+      have : 0 < s.inFlight := by
+        have : 0 < s.inFlight - 1 := hpos
+        omega
+      have := h.input
+      simp_all
+    · show ∀ x ∈ modifyAt g s.tasks id, TaskOK s.dispatched x
+      apply forall_modifyAt h.tasksOK
+      intro t' ht' hk'
+      rw [ht] at hk'; cases hk'
+      refine ⟨ok.latest, by simp [g, Task.unfinished], by simp [g], ?_⟩
+      intro v' hv'
+      simp only [g] at hv' ⊢
+      cases hv'; exact hf
+    · intro k v' hm
+      show ∃ x, (modifyAt g s.tasks id)[k]? = some x ∧ _
+      rw [getElem?_modifyAt]
+      have hm' : Write.completed k v' ∈ s.log ++ [Write.completed id v] := hm
+      simp only [List.mem_append, List.mem_singleton] at hm'
+      rcases hm' with hm' | hm'
+      · obtain ⟨t', ht', ho'⟩ := h.logSound k v' hm'
+        by_cases hk : k = id
+        · subst hk; rw [ht] at ht'; cases ht'; rw [hrun] at ho'; cases ho'
+        · exact ⟨t', by simp [hk, ht'], ho'⟩
+      · cases hm'
+        exact ⟨g t, by simp [ht], rfl⟩
   unfold Action.futArm
   simp only [hl, if_true]
-  apply Inv.clearInput
-  · show s.inFlight - 1 = countP Task.unfinished (modifyAt g s.tasks id)
-    omega
-  · show s.version + 1 = countP Task.completed (modifyAt g s.tasks id)
-    rw [h.version]; omega
-  · show countP Write.isCompleted (s.log ++ [Write.completed id v]) = s.version + 1
-    simp [countP_append, countP, Write.isCompleted, h.logCount]
-  · show some v = lastWrite s.initVal (s.log ++ [Write.completed id v])
-    simp [lastWrite_append]
-  · intro hpos
-    have : 0 < s.inFlight := by
-      have : 0 < s.inFlight - 1 := hpos
-      omega
-    have := h.input
-    simp_all
-  · show ∀ x ∈ modifyAt g s.tasks id, TaskOK s.dispatched x
-    apply forall_modifyAt h.tasksOK
-    intro t' ht' hk'
-    rw [ht] at hk'; cases hk'
-    refine ⟨ok.latest, by simp [g, Task.unfinished], by simp [g], ?_⟩
-    intro v' hv'
-    simp only [g] at hv' ⊢
-    cases hv'; exact hf
-  · intro k v' hm
-    show ∃ x, (modifyAt g s.tasks id)[k]? = some x ∧ _
-    rw [getElem?_modifyAt]
-    have hm' : Write.completed k v' ∈ s.log ++ [Write.completed id v] := hm
-    simp only [List.mem_append, List.mem_singleton] at hm'
-    rcases hm' with hm' | hm'
-    · obtain ⟨t', ht', ho'⟩ := h.logSound k v' hm'
-      by_cases hk : k = id
-      · subst hk; rw [ht] at ht'; cases ht'; rw [hrun] at ho'; cases ho'
-      · exact ⟨t', by simp [hk, ht'], ho'⟩
-    · cases hm'
-      exact ⟨g t, by simp [ht], rfl⟩
+  have e : (Action.fireVersion ({ s with
+      inFlight := s.inFlight - 1
+      tasks := modifyAt g s.tasks id
+      version := s.version + 1 } : State)).log = s.log := by
+    cases hd : s.disposed <;> cases hb : s.hookVersion.budget <;> cases hs : s.suppress <;> cases he : s.eager <;>
+      simp [Action.fireVersion, Action.hookDispatch, hd, hb, hs, he, Action.dispatchCore, parkTask]
+  show Inv (clearInputIfIdle (Action.fireValue { Action.fireVersion ({ s with
+      inFlight := s.inFlight - 1
+      tasks := modifyAt g s.tasks id
+      version := s.version + 1 } : State) with value := some v, log := _ }))
+  rw [e, ← fireVersion_comm]
+  exact hp.fireVersion.fireValue.clearInput
 
 theorem Inv.pollTask {s : State} (h : Inv s) (id : Nat) : Inv (pollTask s id) := by
   unfold Action.pollTask
@@ -404,6 +536,7 @@ theorem Inv.pollTask {s : State} (h : Inv s) (id : Nat) : Inv (pollTask s id) :=
         split
         · next v hf => exact h.futArm id t v ht hd hf
         · next hf =>
+          unfold parkTask
           apply h.modifyTasks
           intro t' ht'
           rw [ht] at ht'; cases ht'
@@ -412,6 +545,21 @@ theorem Inv.pollTask {s : State} (h : Inv s) (id : Nat) : Inv (pollTask s id) :=
           rcases hor with hor | hor
           · exact absurd hf hor
           · exact absurd hor hc
+
+theorem Inv.dispatch {s : State} (h : Inv s) (i : Val) : Inv (dispatchStep s i) := by
+  unfold dispatchStep; split
+  · exact h
+  · split
+    · exact (h.dispatchCore i).pollTask _
+    · exact h.dispatchCore i
+
+theorem Inv.dispatchReady {s : State} (h : Inv s) (i v : Val) : Inv (dispatchReadyStep s i v) := by
+  unfold dispatchReadyStep; split
+  · exact h
+  · show Inv (if s.eager = true then _ else _)
+    split
+    · exact ((h.dispatchCore i).ready _ v).pollTask _
+    · exact (h.dispatchCore i).ready _ v
 
 theorem Inv.step {s : State} (h : Inv s) (e : Event) : Inv (step s e) := by
   cases e with
@@ -429,6 +577,9 @@ theorem Inv.step {s : State} (h : Inv s) (e : Event) : Inv (step s e) := by
   | clear => exact h.clear
   | suppress b => exact h.congr rfl rfl rfl rfl rfl rfl rfl rfl rfl
   | dispose => exact h.congr rfl rfl rfl rfl rfl rfl rfl rfl rfl
+  | eager b => exact h.congr rfl rfl rfl rfl rfl rfl rfl rfl rfl
+  | dispatchReady i v => exact h.dispatchReady i v
+  | hook tr b i => cases tr <;> exact h.congr rfl rfl rfl rfl rfl rfl rfl rfl rfl
 
 theorem Inv.run {s : State} (h : Inv s) (evs : List Event) : Inv (run s evs) := by
   induction evs generalizing s with
@@ -443,6 +594,29 @@ theorem inv_run (v0 : Option Val) (evs : List Event) : Inv (run (init v0) evs) :
 theorem initVal_clearInput (s : State) : (clearInputIfIdle s).initVal = s.initVal := by
   unfold clearInputIfIdle; split <;> rfl
 
+theorem initVal_hookDispatch (s : State) (i : Val) : (hookDispatch s i).initVal = s.initVal := by
+  unfold hookDispatch; split
+  · rfl
+  · split <;> rfl
+
+theorem initVal_fireVersion (s : State) : (fireVersion s).initVal = s.initVal := by
+  unfold fireVersion; split
+  · rfl
+  · split
+    · rfl
+    · exact initVal_hookDispatch _ _
+
+theorem initVal_fireValue (s : State) : (fireValue s).initVal = s.initVal := by
+  unfold fireValue; split
+  · rfl
+  · split
+    · rfl
+    · exact initVal_hookDispatch _ _
+
+theorem initVal_futArm (s : State) (id : Nat) (t : Task) (v : Val) : (futArm s id t v).initVal = s.initVal := by
+  simp only [futArm]
+  split <;> simp only [initVal_clearInput, initVal_fireValue, initVal_fireVersion]
+
 theorem initVal_pollTask (s : State) (id : Nat) : (Action.pollTask s id).initVal = s.initVal := by
   unfold Action.pollTask
   split
@@ -452,7 +626,7 @@ theorem initVal_pollTask (s : State) (id : Nat) : (Action.pollTask s id).initVal
     · split
       · simp [Action.abortArm, initVal_clearInput]
       · split
-        · simp only [Action.futArm, initVal_clearInput]
+        · exact initVal_futArm _ _ _ _
         · rfl
 
 theorem initVal_step (s : State) (e : Event) : (step s e).initVal = s.initVal := by
@@ -464,8 +638,23 @@ theorem initVal_step (s : State) (e : Event) : (step s e).initVal = s.initVal :=
     split
     · rfl
     · exact initVal_pollTask s _
-  | dispatch i => simp only [step, dispatchStep]; split <;> rfl
-  | clear => simp only [step, clearStep]; split <;> rfl
+  | dispatch i =>
+    simp only [step, dispatchStep]; split
+    · rfl
+    · split
+      · rw [initVal_pollTask]; rfl
+      · rfl
+  | dispatchReady i v =>
+    simp only [step, dispatchReadyStep]; split
+    · rfl
+    · split
+      · rw [initVal_pollTask]; rfl
+      · rfl
+  | clear =>
+    simp only [step, clearStep]; split
+    · rfl
+    · exact initVal_fireValue _
+  | hook tr b i => cases tr <;> rfl
   | _ => rfl
 
 theorem initVal_run (s : State) (evs : List Event) : (run s evs).initVal = s.initVal := by
@@ -595,6 +784,89 @@ theorem abortOK_clearInput {s : State} {P : Task → Prop} (h : ∀ t ∈ s.task
     ∀ t ∈ (clearInputIfIdle s).tasks, P t := by
   unfold clearInputIfIdle; split <;> exact h
 
+theorem abortOK_dispatchCore {s : State} (hj : ∀ t ∈ s.tasks, AbortOK t) (i : Val) :
+    ∀ t ∈ (dispatchCore s i).tasks, AbortOK t := by
+  intro t ht
+  simp only [dispatchCore, List.mem_append, List.mem_singleton] at ht
+  rcases ht with ht | rfl
+  · exact hj t ht
+  · intro h; simp at h
+
+theorem abortOK_park {s : State} (hj : ∀ t ∈ s.tasks, AbortOK t) (id : Nat) :
+    ∀ t ∈ (parkTask s id).tasks, AbortOK t := by
+  apply abortOK_modify hj
+  intro t' _ ok'
+  exact ok'
+
+theorem abortOK_hookDispatch {s : State} (hj : ∀ t ∈ s.tasks, AbortOK t) (i : Val) :
+    ∀ t ∈ (hookDispatch s i).tasks, AbortOK t := by
+  unfold hookDispatch; split
+  · exact hj
+  · split
+    · exact abortOK_park (abortOK_dispatchCore hj i) _
+    · exact abortOK_dispatchCore hj i
+
+theorem abortOK_fireVersion {s : State} (hj : ∀ t ∈ s.tasks, AbortOK t) :
+    ∀ t ∈ (fireVersion s).tasks, AbortOK t := by
+  unfold fireVersion; split
+  · exact hj
+  · split
+    · exact hj
+    · refine abortOK_hookDispatch ?_ _
+      exact hj
+
+theorem abortOK_fireValue {s : State} (hj : ∀ t ∈ s.tasks, AbortOK t) :
+    ∀ t ∈ (fireValue s).tasks, AbortOK t := by
+  unfold fireValue; split
+  · exact hj
+  · split
+    · exact hj
+    · refine abortOK_hookDispatch ?_ _
+      exact hj
+
+theorem abortOK_pollTask {s : State} (hj : ∀ t ∈ s.tasks, AbortOK t) (id : Nat) :
+    ∀ t ∈ (Action.pollTask s id).tasks, AbortOK t := by
+  unfold Action.pollTask
+  split
+  · exact hj
+  · next t ht =>
+    split
+    · exact hj
+    · next hd =>
+      have hd : t.done = false := by simpa using hd
+      have ok := hj t (mem_of_getElem? ht)
+      split
+      · -- the abort arm
+        apply abortOK_clearInput
+        apply abortOK_modify hj
+        intro t' _ _ _
+        exact ⟨by simp [Task.completed], fun h => by simp at h⟩
+      · next hc =>
+        -- the abort arm is not ready, so the task is not `abortFirst`
+        have hab : t.abortFirst = false := by
+          cases hab : t.abortFirst
+          · rfl
+          · exact absurd ((ok hab).2 hd) hc
+        split
+        · next v _ =>
+          have h1 : ∀ x ∈ modifyAt (fun t : Task => { t with woken := false, done := true, outcome := .completed v })
+              s.tasks id, AbortOK x := by
+            apply abortOK_modify hj
+            intro t' ht' _
+            rw [ht] at ht'; cases ht'
+            intro ha
+            have : t.abortFirst = true := ha
+            rw [hab] at this; cases this
+          simp only [futArm]
+          split
+          · apply abortOK_clearInput
+            apply abortOK_fireValue
+            apply abortOK_fireVersion (s := { s with inFlight := _, tasks := _, version := _ })
+            exact h1
+          · apply abortOK_clearInput
+            exact h1
+        · exact abortOK_park hj id
+
 theorem abortOK_step {s : State} (hi : Inv s) (hj : ∀ t ∈ s.tasks, AbortOK t) (e : Event) :
     ∀ t ∈ (step s e).tasks, AbortOK t := by
   cases e with
@@ -602,13 +874,28 @@ theorem abortOK_step {s : State} (hi : Inv s) (hj : ∀ t ∈ s.tasks, AbortOK t
     simp only [step, dispatchStep]
     split
     · exact hj
-    · intro t ht
-      simp only [Action.dispatchCore, List.mem_append, List.mem_singleton] at ht
-      rcases ht with ht | rfl
-      · exact hj t ht
-      · intro h; simp at h
+    · split
+      · exact abortOK_pollTask (abortOK_dispatchCore hj i) _
+      · exact abortOK_dispatchCore hj i
+  | dispatchReady i v =>
+    have hr : ∀ t ∈ (readyStep (dispatchCore s i) s.tasks.length v).tasks, AbortOK t := by
+      apply abortOK_modify (abortOK_dispatchCore hj i)
+      intro t _ ok
+      split
+      · exact ok
+      · split
+        · exact ok
+        · exact ok
+    simp only [step, dispatchReadyStep]
+    split
+    · exact hj
+    · split
+      · exact abortOK_pollTask hr _
+      · exact hr
   | suppress b => exact hj
   | dispose => exact hj
+  | eager b => exact hj
+  | hook tr b i => cases tr <;> exact hj
   | abort k =>
     apply abortOK_modify hj
     intro t ht ok
@@ -648,46 +935,16 @@ theorem abortOK_step {s : State} (hi : Inv s) (hj : ∀ t ∈ s.tasks, AbortOK t
       · exact ok
   | clear =>
     simp only [step, clearStep]
-    split <;> exact hj
+    split
+    · exact hj
+    · exact abortOK_fireValue (s := { s with value := _, log := _ }) hj
   | poll j =>
     show ∀ t ∈ (match (readyList s)[j % (readyList s).length]? with
       | none => s
       | some id => Action.pollTask s id).tasks, AbortOK t
     split
     · exact hj
-    · next id hid =>
-      unfold Action.pollTask
-      split
-      · exact hj
-      · next t ht =>
-        split
-        · exact hj
-        · next hd =>
-          have hd : t.done = false := by simpa using hd
-          have ok := hj t (mem_of_getElem? ht)
-          split
-          · -- the abort arm
-            apply abortOK_clearInput
-            apply abortOK_modify hj
-            intro t' _ _ _
-            exact ⟨by simp [Task.completed], fun h => by simp at h⟩
-          · next hc =>
-            -- the abort arm is not ready, so the task is not `abortFirst`
-            have hab : t.abortFirst = false := by
-              cases hab : t.abortFirst
-              · rfl
-              · exact absurd ((ok hab).2 hd) hc
-            split
-            · apply abortOK_clearInput
-              apply abortOK_modify hj
-              intro t' ht' _
-              rw [ht] at ht'; cases ht'
-              intro ha
-              have : t.abortFirst = true := ha
-              rw [hab] at this; cases this
-            · apply abortOK_modify hj
-              intro t' ht' ok'
-              exact ok'
+    · exact abortOK_pollTask hj _
 
 theorem abortOK_run {s : State} (hi : Inv s) (hj : ∀ t ∈ s.tasks, AbortOK t) (evs : List Event) :
     ∀ t ∈ (run s evs).tasks, AbortOK t := by
@@ -799,11 +1056,6 @@ theorem Inv.dispatchSyncCore {s : State} (h : Inv s) (v : Val) : Inv (dispatchSy
   · intro j t ht
     obtain ⟨r, hr, hs⟩ := h.recs j t ht
     exact ⟨r, by simp only [M.dispatchSyncCore]; rw [List.getElem?_append_left (h.inRange j t ht)]; exact hr, hs⟩
-
-theorem Inv.dispatch {s : State} (h : Inv s) (i : Val) : Inv (dispatchStep s i) := by
-  unfold dispatchStep; split
-  · exact h
-  · exact h.dispatchCore i
 
 theorem Inv.dispatchSync {s : State} (h : Inv s) (v : Val) : Inv (dispatchSyncStep s v) := by
   unfold dispatchSyncStep; split
@@ -965,9 +1217,26 @@ theorem Inv.pollTask {s : State} (h : Inv s) (id : Nat) : Inv (pollTask s id) :=
             have hne : t'.sub ≠ t.sub := fun he => hj (h.distinct j id t' t h2 ht he)
             exact ⟨r, by simp [hne, hr], hs⟩
 
+theorem Inv.dispatch {s : State} (h : Inv s) (i : Val) : Inv (dispatchStep s i) := by
+  unfold dispatchStep; split
+  · exact h
+  · split
+    · exact (h.dispatchCore i).pollTask _
+    · exact h.dispatchCore i
+
+theorem Inv.dispatchReady {s : State} (h : Inv s) (i v : Val) : Inv (dispatchReadyStep s i v) := by
+  unfold dispatchReadyStep; split
+  · exact h
+  · show Inv (if s.eager = true then _ else _)
+    split
+    · exact ((h.dispatchCore i).ready _ v).pollTask _
+    · exact (h.dispatchCore i).ready _ v
+
 theorem Inv.step {s : State} (h : Inv s) (e : Event) : Inv (step s e) := by
   cases e with
   | dispatch i => exact h.dispatch i
+  | dispatchReady i v => exact h.dispatchReady i v
+  | eager b => exact h.congr rfl rfl rfl rfl
   | dispatchSync v => exact h.dispatchSync v
   | cancel k => exact h.cancel k
   | ready k v => exact h.ready k v
@@ -988,6 +1257,21 @@ theorem Inv.run {s : State} (h : Inv s) (evs : List Event) : Inv (run s evs) := 
 
 theorem inv_run (evs : List Event) : Inv (run init evs) := Inv.init.run evs
 
+/-- a poll changes no record but the one its task owns -/
+theorem pollTask_subs (s : State) (id k : Nat) (h : ∀ t, s.tasks[id]? = some t → t.sub ≠ k) :
+    (M.pollTask s id).subs[k]? = s.subs[k]? := by
+  unfold M.pollTask
+  split
+  · rfl
+  · next t ht =>
+    split
+    · rfl
+    · split
+      · rfl
+      · have := h t ht
+        simp only [getElem?_modifyAt]
+        rw [if_neg (fun e => this e.symm)]
+
 /-- one step changes at most the record it targets, and changes it by the one-record machine `Sub.step` -/
 theorem step_subs (s : State) (e : Event) (k : Nat) (r : Sub) (hr : s.subs[k]? = some r) :
     (step s e).subs[k]? = some (match target s e with
@@ -999,7 +1283,25 @@ theorem step_subs (s : State) (e : Event) (k : Nat) (r : Sub) (hr : s.subs[k]? =
     simp only [step, dispatchStep, target]
     split
     · exact hr
-    · simp only [M.dispatchCore]; rw [List.getElem?_append_left hk]; exact hr
+    · have hc : (M.dispatchCore s i).subs[k]? = some r := by
+        simp only [M.dispatchCore]; rw [List.getElem?_append_left hk]; exact hr
+      split
+      · rw [pollTask_subs _ _ _ (fun t ht => by
+          simp [M.dispatchCore] at ht; subst ht; simp; omega)]
+        exact hc
+      · exact hc
+  | dispatchReady i v =>
+    simp only [step, dispatchReadyStep, target]
+    split
+    · exact hr
+    · have hc : (readyStep (M.dispatchCore s i) s.tasks.length v).subs[k]? = some r := by
+        simp only [M.readyStep, M.dispatchCore]; rw [List.getElem?_append_left hk]; exact hr
+      split
+      · rw [pollTask_subs _ _ _ (fun t ht => by
+          simp [M.readyStep, M.dispatchCore, getElem?_modifyAt] at ht; subst ht; simp; omega)]
+        exact hc
+      · exact hc
+  | eager b => exact hr
   | dispatchSync v =>
     simp only [step, dispatchSyncStep, target]
     split
@@ -1105,30 +1407,81 @@ theorem C17_disposed_handle_inert (s : State) (h : s.disposed = true) :
 theorem C17_dispose_transparent (s : State) :
     step s .dispose = { s with disposed := true } := rfl
 
-theorem tasks_length_clearInput (s : State) : (clearInputIfIdle s).tasks.length = s.tasks.length := by
-  unfold clearInputIfIdle; split <;> rfl
+theorem disposed_hookDispatch (s : State) (i : Val) : (hookDispatch s i).disposed = s.disposed := by
+  unfold hookDispatch; split
+  · rfl
+  · split <;> rfl
 
-theorem tasks_length_pollTask (s : State) (id : Nat) : (Action.pollTask s id).tasks.length = s.tasks.length := by
-  unfold Action.pollTask
-  split
+theorem disposed_fireVersion (s : State) : (fireVersion s).disposed = s.disposed := by
+  unfold fireVersion; split
   · rfl
   · split
     · rfl
+    · exact disposed_hookDispatch _ _
+
+theorem disposed_fireValue (s : State) : (fireValue s).disposed = s.disposed := by
+  unfold fireValue; split
+  · rfl
+  · split
+    · rfl
+    · exact disposed_hookDispatch _ _
+
+/-- the harness's observers do not dispatch through a disposed handle -/
+theorem tasks_fireVersion (s : State) (h : s.disposed = true) : (fireVersion s).tasks = s.tasks := by
+  simp [fireVersion, h]
+
+theorem tasks_fireValue (s : State) (h : s.disposed = true) : (fireValue s).tasks = s.tasks := by
+  simp [fireValue, h]
+
+theorem disposed_clearInputIfIdle (s : State) : (clearInputIfIdle s).disposed = s.disposed := by
+  unfold clearInputIfIdle; split <;> rfl
+
+theorem tasks_clearInputIfIdle (s : State) : (clearInputIfIdle s).tasks = s.tasks := by
+  unfold clearInputIfIdle; split <;> rfl
+
+theorem disposed_futArm (s : State) (id : Nat) (t : Task) (v : Val) (h : s.disposed = true) :
+    (futArm s id t v).disposed = true ∧ (futArm s id t v).tasks.length = s.tasks.length := by
+  simp only [futArm]
+  split
+  · have h2 : (fireVersion ({ s with
+        inFlight := s.inFlight - 1
+        tasks := modifyAt (fun t : Task => { t with woken := false, done := true, outcome := .completed v }) s.tasks id
+        version := s.version + 1 } : State)).disposed = true := by
+      rw [disposed_fireVersion]; exact h
+    constructor
+    · rw [disposed_clearInputIfIdle, disposed_fireValue]; exact h2
+    · rw [tasks_clearInputIfIdle, tasks_fireValue _ (by exact h2)]
+      show (fireVersion _).tasks.length = _
+      rw [tasks_fireVersion _ (by exact h)]
+      exact length_modifyAt _ _ _
+  · exact ⟨by rw [disposed_clearInputIfIdle]; exact h, by rw [tasks_clearInputIfIdle]; exact length_modifyAt _ _ _⟩
+
+theorem disposed_pollTask (s : State) (id : Nat) (h : s.disposed = true) :
+    (Action.pollTask s id).disposed = true ∧ (Action.pollTask s id).tasks.length = s.tasks.length := by
+  unfold Action.pollTask
+  split
+  · exact ⟨h, rfl⟩
+  · split
+    · exact ⟨h, rfl⟩
     · split
-      · simp [Action.abortArm, tasks_length_clearInput, length_modifyAt]
+      · simp only [Action.abortArm]
+        exact ⟨by rw [disposed_clearInputIfIdle]; exact h, by rw [tasks_clearInputIfIdle]; exact length_modifyAt _ _ _⟩
       · split
-        · simp only [Action.futArm, tasks_length_clearInput, length_modifyAt]
-        · simp [length_modifyAt]
+        · exact disposed_futArm s id _ _ h
+        · exact ⟨h, length_modifyAt _ _ _⟩
 
 theorem disposed_step (s : State) (e : Event) (h : s.disposed = true) :
     (step s e).disposed = true ∧ (step s e).tasks.length = s.tasks.length := by
   cases e with
   | dispatch i => simp [step, dispatchStep, h]
+  | dispatchReady i v => simp [step, dispatchReadyStep, h]
   | abort k => exact ⟨h, length_modifyAt _ _ _⟩
   | dropHandle k => exact ⟨h, length_modifyAt _ _ _⟩
   | ready k v => exact ⟨h, length_modifyAt _ _ _⟩
   | clear => simp [step, clearStep, h]
   | suppress b => exact ⟨h, rfl⟩
+  | eager b => exact ⟨h, rfl⟩
+  | hook tr b i => cases tr <;> exact ⟨h, rfl⟩
   | dispose => exact ⟨rfl, rfl⟩
   | poll j =>
     show (match (readyList s)[j % (readyList s).length]? with
@@ -1139,18 +1492,7 @@ theorem disposed_step (s : State) (e : Event) (h : s.disposed = true) :
       | some id => Action.pollTask s id).tasks.length = s.tasks.length
     split
     · exact ⟨h, rfl⟩
-    · next id _ =>
-      refine ⟨?_, tasks_length_pollTask s id⟩
-      unfold Action.pollTask
-      split
-      · exact h
-      · split
-        · exact h
-        · split
-          · simp only [Action.abortArm, clearInputIfIdle]; split <;> exact h
-          · split
-            · simp only [Action.futArm, clearInputIfIdle]; split <;> exact h
-            · exact h
+    · exact disposed_pollTask s _ h
 
 /-- disposal is permanent and no dispatch is ever added afterwards: the set of dispatches the
 property talks about is frozen, only their outcomes still change -/
@@ -1170,6 +1512,42 @@ theorem C17_multi_suppressed_disposed_noop (s : M.State) :
     (s.disposed = true → (∀ i, M.step s (.dispatch i) = s) ∧ ∀ v, M.step s (.dispatchSync v) = s) := by
   refine ⟨fun h i => ?_, fun h => ⟨fun i => ?_, fun v => ?_⟩⟩ <;>
     simp [M.step, M.dispatchStep, M.dispatchSyncStep, h]
+
+/-! ## eager executor, futures ready at first poll, re-entrant dispatch
+
+All theorems above are over the extended event type (`eager`, `dispatchReady`, `hook`), so they hold
+under both executors, for futures that are resolved before their first poll, and for histories in
+which a synchronous observer of `version` / `value` dispatches again from INSIDE the completion step
+(or inside `clear`). The next statements make the two new mechanisms explicit. -/
+
+/-- the completion step is atomic with respect to `in_flight` (one `update` before the observers
+run): an observer of `version` that dispatches from inside it sees the decremented counter, so
+afterwards the counter counts exactly the re-dispatched task in place of the finished one, the
+version is bumped, the value written, and the input is the re-dispatch's (not cleared by the tail) -/
+theorem C17_reentrant_dispatch_in_completion (s : State) (id : Nat) (t : Task) (v : Val) (n : Nat)
+    (hl : s.dispatched ≤ t.curVersion) (hd : s.disposed = false) (hs : s.suppress = false)
+    (he : s.eager = false) (hb : s.hookVersion.budget = n + 1) (hv : s.hookValue.budget = 0)
+    (hpos : 0 < s.inFlight) :
+    let s' := futArm s id t v
+    s'.inFlight = s.inFlight ∧ s'.version = s.version + 1 ∧ s'.value = some v ∧
+    s'.input = some s.hookVersion.input ∧ s'.tasks.length = s.tasks.length + 1 ∧
+    s'.hookVersion.budget = n := by
+  have hl' : decide (s.dispatched ≤ t.curVersion) = true := by simpa using hl
+  simp only [futArm, hl', if_true]
+  simp [fireVersion, fireValue, hookDispatch, dispatchCore, clearInputIfIdle, hd, hs, he, hb, hv,
+    length_modifyAt]
+  omega
+
+/-- under the eager executor a dispatch whose future is already resolved is complete when
+`dispatch()` returns: nothing is pending, the version is bumped, the value written, the input cleared -/
+theorem C17_eager_ready_dispatch (s : State) (i v : Val) (h : Inv s)
+    (hd : s.disposed = false) (hs : s.suppress = false) (he : s.eager = true)
+    (hb : s.hookVersion.budget = 0) (hv : s.hookValue.budget = 0) (h0 : s.inFlight = 0) :
+    let s' := step s (.dispatchReady i v)
+    s'.pending = false ∧ s'.version = s.version + 1 ∧ s'.value = some v ∧ s'.input = none := by
+  have hl : decide (s.dispatched ≤ s.dispatched) = true := by simp
+  simp [step, dispatchReadyStep, hd, hs, he, Action.pollTask, readyStep, dispatchCore, getElem?_modifyAt,
+    futArm, fireVersion, fireValue, hb, hv, clearInputIfIdle, h0, State.pending]
 
 /-! ## the driver's `idle` op is a list of poll events (so every theorem applies to driver states) -/
 
@@ -1297,6 +1675,40 @@ example :
     let s := M.run M.init [.dispatch 10, .suppress true, .dispatch 11, .dispatchSync 77, .suppress false, .dispose,
       .dispatch 12, .dispatchSync 78, .ready 0 100, .poll 0]
     s.version = 2 ∧ s.subs = [⟨none, some 100, false, false⟩, ⟨none, some 77, false, false⟩] := by decide
+
+/-- a retry pattern: an observer of `version` re-dispatches (twice) from inside the completion step -/
+example :
+    let s := run (init none) [.hook .version 2 9, .dispatch 1, .poll 0, .ready 0 5, .poll 0]
+    s.pending = true ∧ s.version = 1 ∧ s.value = some 5 ∧ s.input = some 9 ∧ s.tasks.length = 2 ∧
+    s.hookVersion.budget = 1 ∧ s.inFlight = 1 := by decide
+
+example :
+    let s := run (init none) [.hook .version 2 9, .dispatch 1, .ready 0 5, .poll 0, .ready 1 6, .poll 0,
+      .ready 2 7, .poll 0]
+    s.pending = false ∧ s.version = 3 ∧ s.value = some 7 ∧ s.input = none ∧ s.tasks.length = 3 ∧
+    s.hookVersion.budget = 0 := by decide
+
+/-- an observer of `value` also fires on `clear` -/
+example :
+    let s := run (init (some 4)) [.hook .value 1 8, .clear]
+    s.pending = true ∧ s.value = none ∧ s.input = some 8 ∧ s.tasks.length = 1 := by decide
+
+/-- eager executor: a resolved future completes inside `dispatch`; a pending one is parked by it -/
+example :
+    let s := run (init none) [.eager true, .dispatchReady 3 7, .dispatch 4]
+    s.version = 1 ∧ s.value = some 7 ∧ s.pending = true ∧ s.input = some 4 ∧
+    s.tasks.map (·.done) = [true, false] ∧ s.idle = true := by decide
+
+/-- eager executor and re-entrant dispatch together -/
+example :
+    let s := run (init none) [.eager true, .hook .value 1 8, .dispatchReady 3 7]
+    s.version = 1 ∧ s.value = some 7 ∧ s.pending = true ∧ s.input = some 8 ∧ s.tasks.length = 2 ∧
+    s.idle = true := by decide
+
+example :
+    let s := M.run M.init [.eager true, .dispatchReady 3 7, .dispatch 4]
+    s.version = 1 ∧ s.subs = [⟨none, some 7, false, false⟩, ⟨some 4, none, true, false⟩] ∧ s.idle = true := by
+  decide
 
 /-- multi-action: three overlapping submissions, one canceled before it resolves, one `dispatch_sync` -/
 example :
